@@ -825,8 +825,9 @@ func (interp *Interpreter) cfg(root *node, sc *scope, importPath, pkgName string
 					src.findex = dest.findex // Set recv address to LHS.
 					dest.typ = src.typ
 				case src.action == aCompositeLit:
-					if dest.typ.cat == valueT && dest.typ.rtype.Kind() == reflect.Interface {
-						// Skip optimisation for assigned interface.
+					if isInterfaceBin(dest.typ) || isInterface(dest.typ) && src.typ.cat == valueT {
+						// Skip optimisation for assigned interface, except for a literal of
+						// a source type in a source interface, which wraps itself.
 						break
 					}
 					if dest.action == aGetIndex || dest.action == aStar {
